@@ -5,9 +5,9 @@ from . import decls as D
 
 CORPUS_VERSION = 7
 
-AS = ['match', 'table', None]          # None = parameter omitted (auto)
-IT_G = ['range', 'next_and_back', 'table', 'table_inline', None]
-IT_H = ['next_and_back', 'table', 'table_inline', None]
+AS = ['match', 'table', None, 'auto']  # None = parameter omitted (auto); 'auto' = written explicitly
+IT_G = ['range', 'next_and_back', 'table', 'table_inline', None, 'auto']
+IT_H = ['next_and_back', 'table', 'table_inline', None, 'auto']
 
 def mode_rotation(gapless):
     """a list of (as_str, from_str, FromStr, iter, with_range) covering every mode value of every
@@ -38,7 +38,7 @@ def build(tier, seed):
                 variants.append(('asc', 'implicit', 'hostile'))
             variants.append(('asc', 'mixed', 'default'))
             if n <= 50:
-                variants += [('shuf', 'explicit', 'hostile'), ('desc', 'fancy', 'dup'), ('runshuf', 'explicit', 'swap'), ('asc', 'fancy', 'default')]
+                variants += [('shuf', 'explicit', 'hostile'), ('desc', 'fancy', 'dup'), ('runshuf', 'explicit', 'swap'), ('asc', 'fancy', 'default'), ('shuf', 'explicit', 'idents')]
             else:
                 variants += [('desc', 'explicit', 'default')]
             light = label.startswith(('gapless_end_u', 'gapless_end_i', 'gapless_cross_', 'gapless_start_i', 'holes_at_', 'holes_span_mod'))
@@ -95,6 +95,13 @@ def build(tier, seed):
                     add(d, D.config([f], {f: mm}), kind='single', classes=[f, str(mm)])
                     if f == 'iter' and m != 'table_inline':
                         add(d, D.config(['iter', 'range'], {'iter': mm}), kind='single', classes=['iter+range', str(mm)])
+    # enums declared inside a function body (the derive output must be valid as block-level items)
+    for r, label, vals in [('i8', 'holes_neg_later', [-10, -9, -5, -4, 3]), ('u64', 'gapless_pos', [5, 6, 7])]:
+        d = D.make_decl(r, label, vals, 'shuf', 'explicit', 'hostile', rnd, vis='')
+        d['context'] = 'fn'
+        gap = d['gapless']
+        for (a, f, t, it) in [('table', 'table', 'table', 'next_and_back'), ('match', 'match', 'match', 'table'), (None, None, None, None), ('table', 'match', 'table', 'range' if gap else 'table_inline')]:
+            add(d, D.full_config(a, f, t, it, True, split=2), kind='fnlocal')
     # `sorted` configurations: the declaration order is constrained by name and/or value while the other stays free
     for r, label, vals in [('i16', 'holes_neg_later', [-10, -9, -5, -4, 3]), ('u8', 'gapless0', [0, 1, 2, 3]), ('i64', 'holes_mixed', [1, 2, 3, 4, 10, 20, 21, 30, 31, 32, 33, 34, 35]),
                            ('i8', 'gapless_neg', [-3, -2, -1, 0, 1, 2]), ('u32', 'holes_singletons', list(range(0, 20, 2)))]:
